@@ -796,7 +796,7 @@ class Sem:
             out.append((f, True))
         return out
 
-    def survive(self, e, frame, depth=0):
+    def survive(self, e, frame, depth=0, with_try=False):
         """formula under which control flows past the expression (some branch does not diverge)"""
         e = strip(e)
         if diverges(e):
@@ -805,6 +805,8 @@ class Sem:
             return ("true",)
         k = e.get("k")
         if k == "Match" and is_try(e):
+            if not with_try:
+                return ("true",)     # `?` on the spine is recorded by _narrow_after; elsewhere it is not a branch of interest
             inner = peel(try_inner(e))
             parts = [F_atom(Atom("ok", node=inner, frame=frame))]
             if inner.get("k") in ("Call", "MethodCall") and frame.depth < self.max_depth:
@@ -813,8 +815,8 @@ class Sem:
                     parts.append(fo)
             return f_and(parts)
         if k == "If":
-            t = self.survive(e["then"], frame, depth + 1)
-            f = self.survive(e["else"], frame, depth + 1) if "else" in e else ("true",)
+            t = self.survive(e["then"], frame, depth + 1, with_try)
+            f = self.survive(e["else"], frame, depth + 1, with_try) if "else" in e else ("true",)
             if t == ("true",) and f == ("true",):
                 return ("true",)
             c = self.formula(e["cond"], frame)
@@ -832,11 +834,11 @@ class Sem:
                                 body = a
                         break
                 if body is not None and not user_breaks:
-                    fb = self.survive(body["body"], frame, depth + 1)
+                    fb = self.survive(body["body"], frame, depth + 1, True)
                     return F_atom(Atom("forall", node=e, l=Val(peel(sc["args"][0]), frame), r=fb, scruts=[body["pat"]], frame=frame))
             return ("true",)
         if k == "Match" and not is_try(e):
-            if all(self.survive(a["body"], frame, depth + 1) == ("true",) for a in e["arms"]):
+            if all(self.survive(a["body"], frame, depth + 1, with_try) == ("true",) for a in e["arms"]):
                 return ("true",)
             parts = []
             prev = []
@@ -850,19 +852,19 @@ class Sem:
                     c = f_and([c, self.formula(a["guard"], frame)])
                 elif specific:
                     prev.append(a["pat"])
-                parts.append(f_and([c, self.survive(a["body"], frame, depth + 1)]))
+                parts.append(f_and([c, self.survive(a["body"], frame, depth + 1, with_try)]))
             return f_or(parts)
         if k == "Block":
             parts = []
             for st in e.get("stmts", []):
                 if st.get("k") in ("SSemi", "SExpr"):
-                    parts.append(self.survive(st["e"], frame, depth + 1))
+                    parts.append(self.survive(st["e"], frame, depth + 1, with_try))
                 elif st.get("k") == "SLet" and "init" in st:
-                    parts.append(self.survive(st["init"], frame, depth + 1))
+                    parts.append(self.survive(st["init"], frame, depth + 1, with_try))
                     if "els" in st:
                         parts.append(self._is(st["init"], [st["pat"]], frame))
             if e.get("expr") is not None:
-                parts.append(self.survive(e["expr"], frame, depth + 1))
+                parts.append(self.survive(e["expr"], frame, depth + 1, with_try))
             return f_and(parts)
         return ("true",)
 
